@@ -442,6 +442,108 @@ fn arc_case(cx: &mut Cx, a: Arc<f64>, tol: f64) {
     tolerance_check_c::<f64>(cx, &label, tol, dev, if k10 { Some("K10") } else { None }, 1.5);
 }
 
+/// SvgArc::{for_each_flattened, for_each_flattened_with_t} (f32 and f64): the endpoint-form arc - radii of either
+/// sign, too small for the chord, all flag combinations - against the arc computed independently of lyon from the SVG
+/// implementation notes (c01::svg_arc_reference)
+fn svg_arc_case<S: Fl>(cx: &mut Cx, rng: &mut Rng) {
+    use lyon_geom::{ArcFlags, SvgArc};
+    let from = (rng.range(-10, 10) as f64 + 0.5, rng.range(-10, 10) as f64 + 0.25);
+    let mut to = (rng.range(-10, 10) as f64, rng.range(-10, 10) as f64);
+    if (to.0 - from.0).hypot(to.1 - from.1) < 2.0 {
+        to.0 += 5.0;
+    }
+    let chord = (to.0 - from.0).hypot(to.1 - from.1);
+    let (mut rx, mut ry) = match rng.below(4) {
+        0 => (chord * (0.6 + rng.unit_f64()), chord * (0.6 + rng.unit_f64())),
+        1 => (chord * 0.3, chord * 0.2),
+        2 => (chord * 0.75, chord * 0.75),
+        _ => (2.0 + rng.below(20) as f64, 2.0 + rng.below(20) as f64),
+    };
+    if rng.chance(1, 4) {
+        rx = -rx;
+    }
+    if rng.chance(1, 6) {
+        ry = -ry;
+    }
+    let rot = if rng.chance(1, 3) { 0.0 } else { rng.range(-6, 6) as f64 * 0.25 };
+    let (large, sweep) = (rng.chance(1, 2), rng.chance(1, 2));
+    let tol = *rng.pick(&[0.5, 0.1, 0.01]);
+    let sa = SvgArc {
+        from: point(S::of(from.0), S::of(from.1)),
+        to: point(S::of(to.0), S::of(to.1)),
+        radii: lyon_geom::vector(S::of(rx), S::of(ry)),
+        x_rotation: lyon_geom::Angle::radians(S::of(rot)),
+        flags: ArcFlags { large_arc: large, sweep },
+    };
+    let label = format!("{:?} tol {} ({} bits)", sa, tol, S::bits());
+    cx.st.inc("evaluations");
+    cx.st.inc(&format!("svg_arc_f{}", if S::bits() == 24 { 32 } else { 64 }));
+    cx.st.note_case(&label, true);
+    let r = catch(AssertUnwindSafe(|| {
+        let mut a: Vec<(Point<S>, Point<S>)> = Vec::new();
+        sa.for_each_flattened(S::of(tol), &mut |l: &LineSegment<S>| a.push((l.from, l.to)));
+        let mut b: Vec<(Point<S>, Point<S>, S, S)> = Vec::new();
+        sa.for_each_flattened_with_t(S::of(tol), &mut |l: &LineSegment<S>, t: std::ops::Range<S>| b.push((l.from, l.to, t.start, t.end)));
+        (a, b)
+    }));
+    let (a, b) = match r {
+        Some(x) => x,
+        None => {
+            fail(cx, "SvgArc flattening panicked", label, None);
+            return;
+        }
+    };
+    if a.is_empty() {
+        fail(cx, "SvgArc flattening produced no segment", label, None);
+        return;
+    }
+    let sc = 1.0 + chord + rx.abs() + ry.abs();
+    let e = if S::bits() == 24 { 1e-4 * sc } else { 1e-7 * sc };
+    let d = |p: Point<S>, q: (f64, f64)| (p.x.f() - q.0).hypot(p.y.f() - q.1);
+    if d(a[0].0, from) > e || d(a.last().unwrap().1, to) > e {
+        fail(cx, "SvgArc flattening does not run from the arc's start to its end", label.clone(), None);
+    }
+    if a.windows(2).any(|w| w[0].1 != w[1].0) {
+        fail(cx, "SvgArc segments are not connected", label.clone(), None);
+    }
+    if a.len() != b.len() || a.iter().zip(b.iter()).any(|(x, y)| d(x.0, (y.0.x.f(), y.0.y.f())) > e || d(x.1, (y.1.x.f(), y.1.y.f())) > e) {
+        fail(cx, "SvgArc for_each_flattened differs from for_each_flattened_with_t", label.clone(), None);
+    }
+    let mut ok = !b.is_empty() && b[0].2 == S::ZERO && b.last().unwrap().3 == S::ONE;
+    for x in &b {
+        if !(x.2 < x.3) {
+            ok = false;
+        }
+    }
+    for w in b.windows(2) {
+        if w[0].3 != w[1].2 {
+            ok = false;
+        }
+    }
+    if !ok && b.len() > 1 {
+        fail(cx, "SvgArc parameter ranges are not chained from 0 to exactly 1 in increasing order", label.clone(), None);
+    }
+    // deviation against the independent reference
+    let (refpts, rmax) = crate::c01::svg_arc_reference(from, to, rx, ry, rot, large, sweep, 720);
+    let poly: Vec<(f64, f64)> = std::iter::once((a[0].0.x.f(), a[0].0.y.f())).chain(a.iter().map(|p| (p.1.x.f(), p.1.y.f()))).collect();
+    let mut d1 = 0.0f64;
+    for p in &refpts {
+        d1 = d1.max(dist_pt_poly(*p, &poly));
+    }
+    let mut d2 = 0.0f64;
+    for v in &poly {
+        d2 = d2.max(dist_pt_poly(*v, &refpts));
+    }
+    let rmin = {
+        // the radii after the SVG out-of-range correction keep their ratio
+        let k = rmax / rx.abs().max(ry.abs());
+        rx.abs().min(ry.abs()) * k
+    };
+    let k10 = rmin < 5.0 * tol || rmax > 2.5 * rmin;
+    let slack = rmax * (1.0 - (std::f64::consts::PI / 720.0).cos()) + e;
+    tolerance_check_c::<S>(cx, &label, tol + slack, (d1, d2), if k10 { Some("K10") } else { None }, 1.5);
+}
+
 fn gen_pt<S: Fl>(r: &mut Rng, lattice: bool) -> Point<S> {
     if lattice {
         point(S::of(r.range(-8, 8) as f64), S::of(r.range(-8, 8) as f64))
@@ -607,6 +709,10 @@ pub fn main(args: &Args) -> std::io::Result<()> {
         };
         let tol = *rng.pick(&[1.0, 0.1, 0.01]);
         arc_case(&mut cx, a, tol);
+    }
+    for _ in 0..n {
+        svg_arc_case::<f64>(&mut cx, &mut rng);
+        svg_arc_case::<f32>(&mut cx, &mut rng);
     }
     adapters(&mut cx, &mut rng, n);
     drop(cx);
